@@ -125,7 +125,7 @@ macro_rules! chain_harnesses {
                         assert!(s.ch == 1, "C13/C14: a fresh chain coder must start with an empty compressed head");
                         assert!(s.r as u128 == head && s.comp.n == n, "C13/C14: remainders head must take the fewest words that reach its lower bound");
                         assert!(s.rem.n == 0, "C13: a fresh chain coder must start with empty remainders");
-                        assert!(inv(&s), "C20: fresh chain coder violates the head invariant");
+                        assert!(inv(&s), "C20/C10: fresh chain coder violates the head invariant (the next decode may overflow)");
                     }
                 }
             }
